@@ -1383,3 +1383,25 @@ func isExactlyF6(fs factSet) bool {
 	}
 	return len(fs.matchAll([]factPat{fp("binop<==>(1, len($1))"), fp("binop<==>(246, *index($1, 0))")}, nil)) > 0
 }
+
+// checkStructurePrefixes: the prefix half of R05.3 alone (shared with C09: the
+// tag head and the array head of the structures are shortest-form on accepted
+// input, so re-encoding, which always emits them so, differs from the input in
+// nothing but the widths the property names).
+func checkStructurePrefixes(r *Report, rule string) {
+	P := r.P
+	n := 0
+	for _, T := range P.structureTypes() {
+		name := T.Obj().Name()
+		D := P.methodOf(T, "UnmarshalCBOR")
+		sh, known := expectedShapes[name]
+		if D == nil || !known {
+			continue
+		}
+		n++
+		exp := append(tagHead(sh.tag), byte(0x80+sh.n))
+		ok, why := P.prefixEstablished(P.successFacts(D), T0p1(), exp)
+		r.ob(rule, name+":prefix", D, nil, fmt.Sprintf("success implies the input starts with % x", exp)).check(ok, why, why)
+	}
+	r.floor(rule, n, 5, "structure decoders")
+}
